@@ -769,8 +769,15 @@ package larking
 //@ func (codecHTTPBody).MarshalAppend serves C05 C09
 //@ func (codecHTTPBody).Unmarshal serves C09
 
-//@ func (*Mux).encError serves C05 C09 partial panic ghost
+// (OffersOk: every negotiable content type, and the JSON default, has a codec in
+// the registry - what NewMux builds: it offers exactly the registry's keys. Under
+// it the codec picked for the error body is never nil.)
+//@ spec OffersOk(m) = m.opts.codecs != nil && maphas(m.opts.codecs, "application/json") && mapval(m.opts.codecs, "application/json") != nil
+//@      && (forall x :: {at(m.opts.contentTypeOffers, x)} off(m.opts.contentTypeOffers) <= x && x < off(m.opts.contentTypeOffers) + len(m.opts.contentTypeOffers)
+//@            ==> maphas(m.opts.codecs, at(m.opts.contentTypeOffers, x)) && mapval(m.opts.codecs, at(m.opts.contentTypeOffers, x)) != nil)
+//@ func (*Mux).encError serves C05 C09 partial panic ghost nil[c.Marshal
 //@   requires m != nil && w != nil && r != nil
+//@   requires [registry] OffersOk(m)
 //@   witness verifWitnessEncError
 
 // ---------------------------------------------------------------------------
